@@ -198,10 +198,37 @@ struct clrrec { const void *k, *v; int kid, vid; };
 static struct clrrec clr[MAXN + 8];
 static int nclr;
 
+/* a map of maps: the clear callback clears a small independent map (another callback, another private pointer) */
+static int ncm_calls, ncm_bad; static char ncm_token; static struct mkey ncm_keys[3];
+static void ncm_cb(void *obj, void *priv)
+{
+    cstl_map_iterator_t *it = obj;
+    const struct mkey *k = it->key;
+    if (priv != (void *)&ncm_token || k < ncm_keys || k >= ncm_keys + 3 || it->val != (void *)&ncm_token) ncm_bad++;
+    ncm_calls++;
+}
+static void nested_map_clear(void)
+{
+    static cstl_map_t nm; int q, saved = g_inlib;
+    ncm_calls = ncm_bad = 0;
+    g_inlib = 1;
+    cstl_map_init(&nm, cmp_aux, NULL);
+    for (q = 0; q < 3; q++) {
+        ncm_keys[q].magic = KMAGIC; ncm_keys[q].tail = ~KMAGIC; ncm_keys[q].id = -5; ncm_keys[q].val = q;
+        if (cstl_map_insert(&nm, &ncm_keys[q], &ncm_token, NULL) != 0) { g_inlib = saved; return; }     /* an injected allocation failure: nothing to examine */
+    }
+    cstl_map_clear(&nm, ncm_cb, &ncm_token);
+    g_inlib = saved;
+    if (ncm_calls != 3 || ncm_bad || cstl_map_size(&nm) != 0)
+        sim_violation("C15/nested_clear/clear/map-of-maps", "an independent 3-entry map cleared from inside a clear callback: %d callbacks (%d with a wrong entry or private pointer)", ncm_calls, ncm_bad);
+    PROBE("clear_callback_clears_another_map");
+}
+
 static void clear_cb(void *obj, void *priv)
 {
     CB_ENTER();
     cstl_map_iterator_t *it = obj;
+    if (cmpkind == 3 && mode_g != 16) nested_map_clear();
     struct clrrec *c = nclr < MAXN + 8 ? &clr[nclr] : NULL;
     struct mkey *k = (struct mkey *)it->key;
     struct mval *v = it->val;
@@ -220,8 +247,10 @@ static void clear_cb(void *obj, void *priv)
     CB_LEAVE();
 }
 
+static int held_kid[2];
 static void do_clear(void)
 {
+    held_kid[0] = held_kid[1] = -1;
     int npre = nent, i, j;
     static unsigned char used[MAXN];
     static struct ment pre[MAXN];
@@ -333,6 +362,11 @@ static void intkey_once(const plan_t *p)
     g_run.nontrivial = 1;
 }
 
+/* iterators held by the caller across other operations: an iterator designates its entry for as long as that entry
+ * is in the map, whatever happens to other entries (the map is node based; nothing in the interface says otherwise) */
+static cstl_map_iterator_t held[2]; static int held_others[2];
+static void held_forget(int kid) { int q; for (q = 0; q < 2; q++) if (held_kid[q] == kid) held_kid[q] = -1; else if (held_kid[q] >= 0) held_others[q]++; }
+
 static void m_once(const plan_t *p)
 {
     struct simheap_cfg hc = { RP_MOVE, 0, (unsigned char)p->cfg[CF_JUNK] };
@@ -351,6 +385,7 @@ static void m_once(const plan_t *p)
     cmpkind = (int)(p->cfg[CF_CMP] % 4);
     if (cmpkind == 3 && (p->mode == 16 || keys > 600)) cmpkind = 1;
     nent = 0; next_id = 0; since_clear = -1; maxreach = 0; aux_nodes = 0;
+    held_kid[0] = held_kid[1] = -1;
     if (cmpkind == 3) {
         /* rank table: value v ranks keys - v (a reversed order, looked up through a second map) */
         int v;
@@ -380,6 +415,21 @@ static void m_once(const plan_t *p)
             struct mkey *nk; struct mval *nv; int with_it = (int)(o->a[2] & 1) == 0;
             if (ei < 0 && nent >= maxn) goto do_erase;
             nk = new_key(val); nv = new_val();
+            if (ei < 0 && (o->a[2] & 6) == 2 && p->mode != 16) {
+                /* the caller's key object is first used, with other contents, for a lookup that misses, then filled in
+                 * with the real key and inserted (a scratch record re-used): what the map learnt about the object's
+                 * ADDRESS during the lookup says nothing about the key it holds now */
+                int j, other = -1;
+                for (j = 1; j <= keys && other < 0; j++) if (find_ent((val + j * 7) % keys) < 0 && (val + j * 7) % keys != val) other = (val + j * 7) % keys;
+                if (other >= 0) {
+                    nk->val = other;
+                    TRY(cstl_map_find(&map, nk, &it));
+                    if (g_aborted) VIOL("abort", "find aborted");
+                    if (!cstl_map_iterator_eq(&it, cstl_map_iterator_end(&map))) VIOL("find_absent", "find of absent key %d did not yield the end iterator", other);
+                    nk->val = val;
+                    PROBE("insert_with_key_object_reused_after_failed_find");
+                }
+            }
             memset(&it, 0x5a, sizeof it);
             if (p->mode != 16) simheap_fail_in_op((unsigned)o->a[1]);
             TRY(rc = cstl_map_insert(&map, nk, nv, with_it ? &it : NULL));
@@ -422,6 +472,7 @@ static void m_once(const plan_t *p)
             if (ei >= 0) {
                 PROBE("find_present");
                 if (it.key != ent[ei].k || it.val != ent[ei].v) VIOL("find_present", "find of key %d did not yield the stored pointers", val);
+                if (o->a[2] & 8) { int q = (int)(o->a[2] >> 4 & 1); held[q] = it; held_kid[q] = ent[ei].kid; held_others[q] = 0; }
             } else {
                 PROBE("find_absent");
                 if (!cstl_map_iterator_eq(&it, cstl_map_iterator_end(&map))) VIOL("find_absent", "find of absent key %d did not yield the end iterator", val);
@@ -438,6 +489,7 @@ static void m_once(const plan_t *p)
                 PROBE("erase_present");
                 if (rc != 0) VIOL("erase_present_rc", "erase of a present key returned %d", rc);
                 if (!(o->a[2] & 4) && (it.key != ent[ei].k || it.val != ent[ei].v)) VIOL("erase_reports", "erase did not report the stored pointers of the removed entry");
+                held_forget(ent[ei].kid);
                 simheap_free(ent[ei].k); simheap_free(ent[ei].v);
                 ent[ei] = ent[--nent];
             } else {
@@ -450,10 +502,26 @@ static void m_once(const plan_t *p)
         case M_ERASE_IT:
             if (nent == 0) { EVT("skip", 0, 0, 0); break; }
             ei = (int)(o->a[3] % (uint64_t)nent); val = ent[ei].k->val;
+            {
+                int q = (int)(o->a[2] >> 4 & 1), e2;
+                if ((o->a[2] & 8) && held_kid[q] >= 0) {
+                    /* erase through an iterator obtained earlier; other entries have come and gone since */
+                    for (e2 = 0; e2 < nent; e2++) if (ent[e2].kid == held_kid[q]) break;
+                    if (e2 == nent) sim_harness_bug("map: held iterator for an entry the model does not have");
+                    ei = e2; val = ent[ei].k->val;
+                    it = held[q];
+                    g_cur_ctx = "held-iterator";
+                    if (held_others[q]) PROBE("erase_iterator_held_across_other_erases");
+                    if (it.key != ent[ei].k || it.val != ent[ei].v) sim_harness_bug("map: held iterator contents changed in the harness");
+                    goto have_it;
+                }
+            }
             probe.val = val;
             TRY(cstl_map_find(&map, &probe, &it));
             if (g_aborted) VIOL("abort", "find aborted");
             if (it.key != ent[ei].k || it.val != ent[ei].v) VIOL("find_present", "find of key %d did not yield the stored pointers", val);
+        have_it:
+            held_forget(ent[ei].kid);
             if ((o->a[2] & 3) == 3) {
                 /* erase by iterator needs no key: the caller may already have released the record that held it */
                 memset(ent[ei].k, 0xDD, sizeof *ent[ei].k); simheap_free(ent[ei].k); ent[ei].k = NULL;
@@ -517,7 +585,7 @@ static void m_gen(prng_t *r, int mode, plan_t *p)
         op_t *o = plan_add(p, kind);
         o->a[0] = prng_below(r, 4096);
         o->a[1] = (kind == M_INSERT && faults && prng_chance(r, 1, 5)) ? 1 : 0;     /* attached allocation failure */
-        o->a[2] = prng_below(r, 8);
+        o->a[2] = prng_below(r, 32);          /* bits 3/4: hold the found iterator / erase through a held one */
         o->a[3] = prng_next(r) >> 8;
         if (kind == M_CLEAR && prng_chance(r, 3, 4)) {
             int j, nf = 1 + (int)prng_below(r, 5);
